@@ -153,7 +153,12 @@ fn show_chunk(c: &Chunk) -> String {
 }
 
 /// reason strings are `r<k>`; printed as `k` (anything else prints as `?<text>` and will not match the model)
+const IDLE_REASON: u64 = 1_000_000_007;
+
 fn show_reason(r: &str) -> String {
+    if r == "transfer idle" {
+        return IDLE_REASON.to_string();
+    }
     match r.strip_prefix('r').and_then(|k| k.parse::<u64>().ok()) {
         Some(k) => k.to_string(),
         None => format!("?{}", r),
@@ -297,7 +302,8 @@ fn call_tc(tc: &TransferControl, op: &Op) -> Ret {
                 Ret::Unit
             }
             Op::Cancel(r) => {
-                tc.cancel(format!("r{}", r));
+                // reason token 1000000007 is the watchdog's own reason string
+                tc.cancel(if *r == IDLE_REASON { "transfer idle".to_string() } else { format!("r{}", r) });
                 Ret::Unit
             }
             Op::Advance(f) => {
@@ -506,7 +512,8 @@ fn oracles(c: &Ctl, op: &Op, ret: &Ret, before: &Option<Snap>, after: &Option<Sn
             _ => {}
         }
     } else if let Op::Cancel(r) = op {
-        if a.reason.as_deref() != Some(&format!("r{}", r)[..]) {
+        let want = if *r == IDLE_REASON { "transfer idle".to_string() } else { format!("r{}", r) };
+        if a.reason.as_deref() != Some(&want[..]) {
             fail("transfer.cancel.not_recorded", format!("first cancel(r{}) left reason {:?}", r, a.reason));
         }
     }
@@ -1080,7 +1087,7 @@ fn run_conc(window: u64, cap: u64, setup: &[COp], progs: &[Vec<COp>], reps: u64,
     }
     let t0 = Instant::now();
     for rep in 1..=(reps as usize) {
-        if rep > 20 && t0.elapsed() > budget {
+        if rep > 10 && t0.elapsed() > budget {
             break;
         }
         DROP_SPIN_NS.store(0, std::sync::atomic::Ordering::Relaxed);
@@ -1409,7 +1416,7 @@ fn gen_free(r: &mut Rng, ctl: &Ctl, snap: &Snap, ring_bias: bool) -> Op {
         3 | 4 | 5 => Op::Ack(gen_file(r, ctl.file), lattice(r, &near)),
         6 | 7 => Op::Credit(gen_len(r, ctl.window)),
         8 => {
-            if r.chance(1, 6) { Op::Cancel(r.below(3)) } else { Op::Reconnect }
+            if r.chance(1, 6) { Op::Cancel(if r.chance(1, 3) { IDLE_REASON } else { r.below(3) }) } else { Op::Reconnect }
         }
         9 => {
             if r.chance(1, 3) { Op::Advance(gen_file(r, ctl.file)) } else { Op::SetPeer(r.below(4)) }
@@ -1487,7 +1494,7 @@ fn gen_loop(r: &mut Rng, ctl: &Ctl, snap: &Snap, p: &mut Producer) -> Op {
             6 => Op::Resume(r.range(1, 5), gen_file(r, ctl.file), if snap.ring.is_empty() { lattice(r, &near) } else { r.pick(&snap.ring).off }),
             7 => Op::Reconnect,
             8 => {
-                if r.chance(1, 8) { Op::Cancel(r.below(3)) } else { Op::Replay(lattice(r, &near)) }
+                if r.chance(1, 8) { Op::Cancel(if r.chance(1, 3) { IDLE_REASON } else { r.below(3) }) } else { Op::Replay(lattice(r, &near)) }
             }
             _ => Op::Ack(ctl.file, u64::MAX - r.below(3)),
         };
@@ -1672,7 +1679,15 @@ fn main() {
         out.begin(&line);
         exec_conc(&mut out, &line, &ConcCfg { reps: t_reps, budget: Duration::from_millis(t_budget), drop_ns: 40_000 });
     }
+    // generated races stop when their share of the wall clock is used (a saturated machine runs fewer specs,
+    // never a different verdict)
+    let g_wall = Duration::from_secs(if thorough { 90 } else { 9 });
+    let g_t0 = Instant::now();
     for _ in 0..g_n {
+        if g_t0.elapsed() > g_wall {
+            out.count("conc.generated_specs_skipped_wall_budget");
+            continue;
+        }
         let line = format!("conc q{} {}", ci, gen_conc(&mut rng, ring_bias));
         ci += 1;
         out.begin(&line);
